@@ -2,10 +2,14 @@ pub mod c01;
 pub mod c03;
 pub mod c04;
 pub mod c06;
+pub mod c07;
+pub mod c08;
+pub mod c09;
 pub mod c10;
 pub mod c05;
 pub mod c11;
 pub mod c12;
+pub mod c14;
 pub mod c17;
 pub mod c20;
 
@@ -18,13 +22,17 @@ pub fn by_id(id: &str) -> Option<Box<dyn DynProperty>> {
         "C04" => Box::new(c04::C04::new()),
         "C05" => Box::new(c05::C05::new()),
         "C06" => Box::new(c06::C06::new()),
+        "C07" => Box::new(c07::C07::new()),
+        "C08" => Box::new(c08::C08::new()),
+        "C09" => Box::new(c09::C09::new()),
         "C10" => Box::new(c10::C10::new()),
         "C11" => Box::new(c11::C11::new()),
         "C12" => Box::new(c12::C12::new()),
+        "C14" => Box::new(c14::C14),
         "C17" => Box::new(c17::C17::new()),
         "C20" => Box::new(c20::C20::new()),
         _ => return None,
     })
 }
 
-pub const IDS: &[&str] = &["C01", "C03", "C04", "C05", "C06", "C10", "C11", "C12", "C17", "C20"];
+pub const IDS: &[&str] = &["C01", "C03", "C04", "C05", "C06", "C07", "C08", "C09", "C10", "C11", "C12", "C14", "C17", "C20"];
